@@ -11,17 +11,18 @@ OTHERWISE = None
 
 
 class Case:
-    def __init__(self, name, when=OTHERWISE, returns=None, raises=None, ensures=(), returns_pred=None):
+    def __init__(self, name, when=OTHERWISE, returns=None, raises=None, ensures=(), returns_pred=None, any_outcome=False):
         self.name = name
         self.when = when            # clause over the PRE state (None = otherwise)
         self.returns = returns      # spec text: result == <returns>  (None: any value) -- normal return
         self.raises = raises        # exception class name (str) -- exceptional exit
         self.returns_pred = returns_pred
         self.ensures = list(ensures)
+        self.any_outcome = any_outcome   # the case allows a normal return as well as any exception
 
 
-def case(name, when=OTHERWISE, returns=None, raises=None, ensures=(), returns_pred=None):
-    return Case(name, when, returns, raises, ensures, returns_pred)
+def case(name, when=OTHERWISE, returns=None, raises=None, ensures=(), returns_pred=None, any_outcome=False):
+    return Case(name, when, returns, raises, ensures, returns_pred, any_outcome)
 
 
 class LoopSpec:
@@ -86,6 +87,7 @@ class Registry:
         self.unknown_callables: dict = {}
         self.rt_helpers: dict = {}
         self.lemmas: list = []
+        self.val_classes: list = []    # classes an `Any`-typed object may be (attribute access on Val)
 
     def spec(self, file, qualname, **kw):
         c = Contract(file, qualname, **kw)
@@ -108,6 +110,8 @@ class Registry:
         self.guarded.update(other.guarded)
         self.guard_stop |= other.guard_stop
         self.immutable |= other.immutable
+        self.val_classes += [c for c in other.val_classes if c not in self.val_classes]
+        self.classes.update(other.classes)
         self.rt_helpers.update(other.rt_helpers)
         self.unknown_callables.update(other.unknown_callables)
         self.lemmas.extend(other.lemmas)
